@@ -682,6 +682,13 @@ def search(ctx, prop, n=600):
 
 def replay(ctx, rec, prop):
     case = rec["case"]
+    if rec.get("component") in ("engine.custom_serdes", "engine.rejected_invoke"):
+        # oracle-only scenarios (user-supplied serializers, rejected payloads are not in the model): replayed on the
+        # real code and judged by the oracles alone, as in the run that recorded them
+        ex = E.run_execution(case["script"], case.get("seed", 0), crash_p=0.0, fault_p=0.0, plans=case.get("plans"),
+                             events=case.get("events"), limits=case.get("limits"))
+        run_oracles(ctx, ex, rec["component"], only_prop=prop)
+        return
     one(ctx, case["script"], case.get("seed", 0), prop, component="engine.replay", plans=case.get("plans"),
         events=case.get("events"), limits=case.get("limits"))
 
